@@ -192,6 +192,21 @@ Proof.
   destruct (tus f s c n u mode false) as [h r]. cbn [fst snd] in *. intros ->. cbn [h_ca]. apply (B ch w eq_refl).
 Qed.
 
+(* an accepted {sub} with a mode that leaves want & given without J (self-ban through {sub set.sub.mode}, possibly
+   from a session that is not attached): the requester's session is not attached and no other session of the user stays *)
+Lemma sub_reply_selfban_c07f f s c n sid u want bkg w g w' :
+  snd (this_user_sub f s c n sid u want (match alookup u (c_users c) with Some _ => false | None => true end)) = SubOk (Some (w, g)) ->
+  is_joiner (N.land g w) = false ->
+  let h := sub_reply f s c n sid u want bkg in
+  cwant (h_ca h) u = Some w' -> is_joiner w' = false -> no_sess (h_ca h) u.
+Proof.
+  cbv zeta. unfold sub_reply. rewrite tus_eq.
+  set (nb := match alookup u (c_users c) with Some _ => false | None => true end).
+  destruct (tus_detach_told_c07f f s c n u want nb) as [_ B]. cbv zeta in B.
+  destruct (tus f s c n u want nb) as [h r]. cbn [fst snd] in *. intros -> EJ. rewrite EJ. cbn [h_ca].
+  apply (B (Some (w, g)) w' eq_refl).
+Qed.
+
 (* ---------- one request of any history; every reachable state ---------- *)
 Section BanF.
 Variable dr : Z -> list (Z * Z) -> option (list (Z * Z)).
